@@ -31,20 +31,23 @@ func init() {
 		if len(a) < 3 {
 			os.Exit(2)
 		}
-		switch a[2] {
-		case "own":
-			os.Setenv("LISTEN_PID", strconv.Itoa(os.Getpid()))
-		case "other":
-			os.Setenv("LISTEN_PID", strconv.Itoa(os.Getppid()))
-		case "garbage":
-			os.Setenv("LISTEN_PID", "12x")
-		case "own-padded":
-			os.Setenv("LISTEN_PID", " "+strconv.Itoa(os.Getpid()))
-		case "own-suffix":
-			os.Setenv("LISTEN_PID", strconv.Itoa(os.Getpid())+"abc")
-		default:
-			os.Unsetenv("LISTEN_PID")
+		setPid := func(mode string) {
+			switch mode {
+			case "own":
+				os.Setenv("LISTEN_PID", strconv.Itoa(os.Getpid()))
+			case "other":
+				os.Setenv("LISTEN_PID", strconv.Itoa(os.Getppid()))
+			case "garbage":
+				os.Setenv("LISTEN_PID", "12x")
+			case "own-padded":
+				os.Setenv("LISTEN_PID", " "+strconv.Itoa(os.Getpid()))
+			case "own-suffix":
+				os.Setenv("LISTEN_PID", strconv.Itoa(os.Getpid())+"abc")
+			default:
+				os.Unsetenv("LISTEN_PID")
+			}
 		}
+		setPid(a[2])
 		svc, err := varlink.NewService("Verif", a[1], "1", "u")
 		if err != nil {
 			fmt.Println("FAILED", err)
@@ -81,8 +84,13 @@ func init() {
 		// garbage collections, with the address argument + "-p<n>")
 		in := bufio.NewReader(os.Stdin)
 		for period := 2; ; period++ {
-			if _, err := in.ReadString('\n'); err != nil {
+			line, err := in.ReadString('\n')
+			if err != nil {
 				break
+			}
+			// "NEXT" keeps the environment, "NEXT <pid mode>" changes LISTEN_PID for the coming period
+			if f := strings.Fields(line); len(f) == 2 {
+				setPid(f[1])
 			}
 			svc.Shutdown()
 			select {
@@ -139,6 +147,9 @@ type c20Case struct {
 	// Periods: number of serve periods of the same Service object in the helper process (0 = 1); between two periods
 	// the helper calls Shutdown and forces two garbage collections
 	Periods int `json:"periods,omitempty"`
+	// PeriodPid: LISTEN_PID mode of the 2nd, 3rd, ... period when it differs from the first (the process changes its own
+	// environment between two periods); "" = unchanged
+	PeriodPid []string `json:"period_pid,omitempty"`
 }
 
 // c20Model (DESIGN A.6): index of the inherited descriptor (0 = fd 3) that must be served, or -1 = the address.
@@ -442,7 +453,18 @@ func c20One(r *fw.Run, c *c20Case, idx int) {
 	// further serve periods of the same object in the same process: the environment still says "activated", so the same
 	// endpoint is served again (the fallback address differs per period: "<fallback>-p<n>")
 	for period := 2; period <= c.Periods; period++ {
-		fmt.Fprintln(stdin, "NEXT")
+		selP := sel
+		if period-2 < len(c.PeriodPid) && c.PeriodPid[period-2] != "" {
+			fmt.Fprintln(stdin, "NEXT "+c.PeriodPid[period-2])
+			cp := *c
+			cp.PidMode = c.PeriodPid[period-2]
+			selP, _ = c20Model(&cp)
+			if selP >= 0 && !isSock(kinds[selP]) {
+				selP = -1
+			}
+		} else {
+			fmt.Fprintln(stdin, "NEXT")
+		}
 		var l2 string
 		select {
 		case l2 = <-lineCh:
@@ -463,15 +485,15 @@ func c20One(r *fw.Run, c *c20Case, idx int) {
 			return
 		}
 		pAddr, pNet, pWhat := fmt.Sprintf("%s-p%d", fallback, period), "unix", fmt.Sprintf("the fallback address of period %d", period)
-		if sel >= 0 {
-			pAddr, pNet, pWhat = names[sel], nets[sel], fmt.Sprintf("inherited descriptor %d (%s) in period %d", 3+sel, kinds[sel], period)
+		if selP >= 0 {
+			pAddr, pNet, pWhat = names[selP], nets[selP], fmt.Sprintf("inherited descriptor %d (%s) in period %d", 3+selP, kinds[selP], period)
 		}
 		if ok, wrong := c20Probe(pNet, pAddr, product, 10*time.Second); !ok {
 			report("expected-endpoint-not-served", "%s must be served (model), but no GetInfo reply arrived within 10 s; helper reported %q", pWhat, l2)
 		} else if wrong != "" {
 			report("expected-endpoint-not-served", "%s answered with %q", pWhat, clip(wrong, 200))
 		}
-		if sel >= 0 {
+		if selP >= 0 {
 			if ans, _ := c20Probe("unix", fmt.Sprintf("%s-p%d", fallback, period), product, 15*time.Millisecond); ans {
 				report("unexpected-endpoint-served", "period %d: the address argument is served although the model selects %s", period, pWhat)
 			}
@@ -524,6 +546,10 @@ func runC20(r *fw.Run) {
 		}
 	}
 	cases = append(cases, &c20Case{PidMode: "other", FDS: sp("1"), NamesVar: "extra", Kind: "socket", OtherK: "socket", Periods: 2})
+	// the process changes LISTEN_PID between two periods: every period is decided by the environment it starts in
+	cases = append(cases, &c20Case{PidMode: "own", FDS: sp("1"), NamesVar: "extra", Kind: "socket", OtherK: "socket", Periods: 3, PeriodPid: []string{"unset", "own"}},
+		&c20Case{PidMode: "garbage", FDS: sp("3"), FDNames: sp("x:varlink:y"), NamesVar: "extra", Kind: "socket", OtherK: "socket", Periods: 3, PeriodPid: []string{"own", "other"}},
+		&c20Case{PidMode: "unset", FDS: sp("1"), NamesVar: "extra", Kind: "socket", OtherK: "socket", Periods: 2, PeriodPid: []string{"own"}})
 	cases = append(cases, &c20Case{PidMode: "own-padded", FDS: sp("1"), NamesVar: "extra", Kind: "socket", OtherK: "socket"},
 		&c20Case{PidMode: "own-suffix", FDS: sp("1"), NamesVar: "extra", Kind: "socket", OtherK: "socket"})
 	for _, fds := range []string{"1x", "1.5", "1,3", "2-1", "3;", "0x1", "1e0", "١"} {
@@ -563,7 +589,7 @@ func replayC20(r *fw.Run, raw json.RawMessage) {
 func init() {
 	fw.Register(&fw.Engine{
 		ID: "C20", Level: "exploration",
-		Rule: "the full product LISTEN_PID in {own pid, other pid, unset, garbage} x LISTEN_FDS in {unset, '', 'foo', '-1', '0', '1', '2', '3'} x LISTEN_FDNAMES in {unset, one entry too many, one too few, varlink first / middle / last / twice / absent with the right arity} x kind of the descriptor that would be selected in {listening unix socket, regular file, pipe} = 768 configurations, enumerated completely (thorough: three times, with the non-selected descriptors being sockets, files, pipes), plus a few spellings outside the product ('+1', '01', ' 1', case and blank variants of 'varlink', an empty name). For each configuration a helper process inherits three distinguishable candidates as descriptors 3,4,5, sets LISTEN_PID as the case says and calls Service.Listen(fallback address). Oracle (model A.6 written from the statement): exactly one endpoint - the selected inherited socket, or the fallback address in every other environment incl. a selected descriptor that is not a socket - answers GetInfo with the helper's unique product string; no other candidate answers; the helper never panics. non-trivial = pid matches or LISTEN_FDS is set; distinct by hash of the configuration. Further spellings outside the product: numeric prefixes (1x, 1.5, 3;), pid with suffix or padding, name prefixes and case variants; whenever a descriptor is selected the address argument names an existing file or socket that must be left alone. Extra cases outside the product: inherited listening TCP sockets (selected: must be served; not selected: must not be). Also: up to three serve periods of the same Service object in one activated process (Shutdown and two forced garbage collections in between, a different address argument per period): each period serves the endpoint the model selects.",
+		Rule: "the full product LISTEN_PID in {own pid, other pid, unset, garbage} x LISTEN_FDS in {unset, '', 'foo', '-1', '0', '1', '2', '3'} x LISTEN_FDNAMES in {unset, one entry too many, one too few, varlink first / middle / last / twice / absent with the right arity} x kind of the descriptor that would be selected in {listening unix socket, regular file, pipe} = 768 configurations, enumerated completely (thorough: three times, with the non-selected descriptors being sockets, files, pipes), plus a few spellings outside the product ('+1', '01', ' 1', case and blank variants of 'varlink', an empty name). For each configuration a helper process inherits three distinguishable candidates as descriptors 3,4,5, sets LISTEN_PID as the case says and calls Service.Listen(fallback address). Oracle (model A.6 written from the statement): exactly one endpoint - the selected inherited socket, or the fallback address in every other environment incl. a selected descriptor that is not a socket - answers GetInfo with the helper's unique product string; no other candidate answers; the helper never panics. non-trivial = pid matches or LISTEN_FDS is set; distinct by hash of the configuration. Further spellings outside the product: numeric prefixes (1x, 1.5, 3;), pid with suffix or padding, name prefixes and case variants; whenever a descriptor is selected the address argument names an existing file or socket that must be left alone. Extra cases outside the product: inherited listening TCP sockets (selected: must be served; not selected: must not be). Also: up to three serve periods of the same Service object in one activated process (Shutdown and two forced garbage collections in between, a different address argument per period): each period serves the endpoint the model selects, also when the process changes LISTEN_PID between two periods.",
 		Assumptions: []string{"'no other candidate answers' is checked with a 15 ms probe and is one-sided (an answer is a violation); the positive check has a 10 s bound", "descriptor numbers above 5 are not passed, so LISTEN_FDS > 3 is not generated"},
 		Run:         runC20, Replay: replayC20, CrashIsViolation: false, MinEvals: 100,
 		QuickTimeout: 15 * time.Minute, ThoroughTimeout: 60 * time.Minute,
